@@ -14,6 +14,8 @@ import (
 // one goroutine runs between two decisions, and the decision sequence is
 // a pure function of the seed (or of a recorded schedule).
 
+var DebugSched bool
+
 type entity struct {
 	name     string
 	children int
@@ -128,6 +130,7 @@ func (s *Sched) Yield(site string) {
 // Go starts a harness task under the scheduler.
 func (s *Sched) Go(name string, weight float64, f func()) {
 	s.mu.Lock()
+	s.active = true // before the task can reach its first park point
 	s.live++
 	s.mu.Unlock()
 	go func() {
@@ -150,7 +153,6 @@ func (s *Sched) Go(name string, weight float64, f func()) {
 // deadlock, or when the step bound is exceeded (then tasks are run to
 // completion in name order).
 func (s *Sched) Run() {
-	s.active = true
 	defer func() { s.active = false }()
 	ri := 0
 	for {
@@ -164,6 +166,13 @@ func (s *Sched) Run() {
 			return
 		}
 		sort.SliceStable(s.waiters, func(i, j int) bool { return s.waiters[i].ent.name < s.waiters[j].ent.name })
+		if DebugSched && s.steps < 12 {
+			var ns []string
+			for _, w := range s.waiters {
+				ns = append(ns, fmt.Sprintf("%s@%s(%.1f)", w.ent.name, w.site, w.ent.weight))
+			}
+			fmt.Println("STEP", s.steps, "live", s.live, ns)
+		}
 		pick := 0
 		switch {
 		case s.Replay != nil:
